@@ -47,7 +47,8 @@ S_TALES = [K("k3::S-Pipe3"), K("k3::S-Not"), K("k3::S-Exists"), K("k3::S-LambdaS
 S_INTERP = [K("k3::S-Interp-text"), K("k3::S-Interp-off"), K("k3::S-Interp-lines"),
             K("k3::S-Interp-percent")]
 S_I18N = [K("k3::S-Translate-name"), K("k3::S-Translate-id"), K("k3::S-Translate-empty"),
-          K("k3::S-I18nDomain"), K("k3::S-I18nContext"), K("k3::S-I18nTarget"), K("k3::S-I18nAttributes")]
+          K("k3::S-I18nDomain"), K("k3::S-I18nContext"), K("k3::S-I18nTarget"), K("k3::S-I18nAttributes"),
+          K("k3::S-Content-translate")]
 S_METAL = [K("k3::S-UseExternal"), K("k3::S-MacroUseInternal"), K("k3::S-MacroBody"),
            K("k3::S-MacroUseInternal-after-expr")]
 K2Q = [K("compiler.py::K2.__quote"), K("compiler.py::K2.__quote@char"),
@@ -286,7 +287,11 @@ PROPS = {
                       "side condition is checked on the AST), A-DECODE (decode returns str), A-TRANSLATE "
                       "(translate returns its argument, a str or None), re search semantics for the "
                       "5-character class. Not yet decided: the sinks (K3) and the choice of quote entity.",
-        "units": K2Q + [K("zpt/loader.py::TemplateLoader.load"), K("loader.py::cache.load")],
+        "units": K2Q + [K("zpt/loader.py::TemplateLoader.load"), K("loader.py::cache.load"),
+                        # the sinks: every schema that inserts a value states which __quote call it goes through
+                        K("k3::S-Content"), K("k3::S-Content-translate"), K("k3::S-Attribute"),
+                        K("k3::S-Interp-text"), K("k3::S-Interp-percent"), K("k3::S-Comment-interp"),
+                        K("k3::S-OnError-keep")],
         "not_decided": ["sinks: which quote/entity each emitted call site passes (decided per schema: S-Content, S-Attribute, S-Interp-*, S-Comment-interp)",
                         "'same elements and attributes as for a harmless value' follows from G1-G3 by "
                         "a context argument that is not machine-checked"],
